@@ -68,6 +68,14 @@ Finger18(r) ==
        \cup (IF \E i \in DOMAIN r.decls : r.decls[i] \notin {"struct", "method"} THEN {<<"C18", "extra-top-level-declaration", "", r.id>>} ELSE {})
        \cup (IF Cardinality({i \in DOMAIN r.decls : r.decls[i] = "struct"}) # 1 THEN {<<"C18", "converter-struct-count", "", r.id>>} ELSE {})
 
+\* an unnamed struct type with an unexported field, spelled in another package, is a different type
+RECURSIVE UnexpUnnamed(_)
+UnexpUnnamed(t_) ==
+  CASE t_.k = "struct" -> \E i \in DOMAIN t_.fs : ~Exported(t_.fs[i].n) \/ UnexpUnnamed(t_.fs[i].t)
+    [] t_.k \in {"ptr", "slice", "array"} -> UnexpUnnamed(t_.e)
+    [] t_.k = "map" -> UnexpUnnamed(t_.key) \/ UnexpUnnamed(t_.e)
+    [] OTHER -> FALSE
+
 FingerGen(r) ==
   IF r.gen = "panic" THEN {<<"C13", "generator-panic", r.why, r.id>>}
   ELSE IF r.gen = "hang" THEN {<<"C13", "generator-hang", "", r.id>>}
@@ -79,6 +87,8 @@ FingerGen(r) ==
        \cup (IF r.gen = "fail" /\ r.nfiles > 0 THEN {<<"C03", "failure-with-output", "", r.id>>} ELSE {})
        \cup (IF r.gen = "fail" /\ ~r.namesDecl THEN {<<"C13", "diagnostic-without-declaration", "", r.id>>} ELSE {})
        \cup (IF r.gen = "ok" /\ ~r.compiles THEN {<<"C01", "does-not-compile", "", r.id>>} ELSE {})
+       \cup (IF r.gen = "ok" /\ r.compiles /\ ~r.apiOK
+             THEN {<<"C01", "declared-api-not-implemented", IF UnexpUnnamed(r.s) \/ UnexpUnnamed(r.t) THEN "unnamed-struct-with-unexported-field-in-signature" ELSE "unexplained", r.id>>} ELSE {})
 
 FingerExec(r) ==
   LET in == FromJson(r["in"])
